@@ -617,17 +617,21 @@ impl Element {
                             attr.to_proc_gen_as_normal(w, scopes, bmc)?;
                         }
                         common.to_proc_gen_without_slot(w, scopes, bmc)?;
-                        if let SlotKind::Dynamic(p) = &slot_kind {
+                        if let SlotKind::Dynamic(_) = &slot_kind {
                             if let Some((
                                 _,
                                 Value::Dynamic {
-                                    binding_map_keys, ..
+                                    expression,
+                                    binding_map_keys,
+                                    ..
                                 },
                             )) = common.slot.as_ref()
                             {
                                 if let Some(binding_map_keys) = binding_map_keys {
                                     if !binding_map_keys.is_empty(bmc) {
                                         binding_map_keys.to_proc_gen_write_map(w, bmc, |w| {
+                                            // the expression must be evaluated again with the new data
+                                            let p = expression.to_proc_gen_prepare(w, scopes)?;
                                             w.expr_stmt(|w| {
                                                 write!(w, "R.s(N,")?;
                                                 p.value_expr(w)?;
